@@ -342,9 +342,6 @@ Proof.
 Qed.
 
 (* ---- the shared state *)
-Definition notif (s : sys) (ch : nat) : bool :=
-  match nth_error (chans s) ch with Some x => notified x | None => false end.
-
 (* channel ch has a sender registered on condition c (vacuous if there is no c) *)
 Definition regd (s : sys) (c ch : nat) : Prop :=
   forall cd, nth_error (conds s) c = Some cd -> In ch (c_registered cd).
